@@ -6,7 +6,7 @@ META = dict(
                 "IPNS name conversion graph are written in TLA+; TLC proves idempotence / no-dots / same-root-CID / URI=path on "
                 "every enumerated case and prints the expected observable; every case (all token sequences up to length 3/4 over "
                 "19 token classes, up to 5/6 over 8 representative classes, 20 scheme x separator URI variants, all conversion "
-                "paths up to length 3/4 over 11 edges x 4 key types, 6 rejected forms) is executed on the real "
+                "paths up to length 3/4 over 12 edges x 4 key types, 6 rejected forms) is executed on the real "
                 "path.NewPath / NewPathFromURI / StringToSegments / ipns.Name code and compared; long random sequences recorded "
                 "from the code are validated by TracePathSyntax."),
     level_note=("Trusted: go-cid / go-multibase / go-libp2p peer decoding; harness token table (self-checked: each token decodes "
@@ -47,11 +47,17 @@ def run(ctx):
                        "NewImmutablePath, NewPathFromSegments, StringToSegments, NewPathFromURI, name conversions. "
                        "non-trivial = accepted path whose cleaned segments differ from the raw tokens, or a name path of length >= 2")
     q = ctx.quick
-    ctx.tlc_mc("PathSyntax", "PathSyntax.tla", "MCPathSyntaxQuick.cfg" if q else "MCPathSyntax.cfg",
-               timeout=1500, deadlock=False, coverage=not q)
-    cases = ctx.tlc_gen("PathSyntax", "GenPathSyntax.tla", "GenPathSyntax.cfg" if q else "GenPathSyntaxFull.cfg",
-                        timeout=2400, workers=8 if q else 16)
-    if not cases:
+    import concurrent.futures as cf, time as _t
+    ctx.specdir("PathSyntax")
+    with cf.ThreadPoolExecutor(max_workers=2) as ex:      # M and the generator are independent TLC runs
+        fm = ex.submit(ctx.tlc_mc, "PathSyntax", "PathSyntax.tla", "MCPathSyntaxQuick.cfg" if q else "MCPathSyntax.cfg",
+                       timeout=2400, deadlock=False, coverage=not q, workers=4 if q else 8)
+        _t.sleep(0.3)
+        fg = ex.submit(ctx.tlc_gen, "PathSyntax", "GenPathSyntax.tla", "GenPathSyntax.cfg" if q else "GenPathSyntaxFull.cfg",
+                       timeout=2400, workers=8)
+        fm.result()
+        cases = fg.result()
+    if not cases or ctx.brokens:
         return
     binp = ctx.go_build("ipns", ["ipns/zz_verif_C28_test.go"])
 
